@@ -182,15 +182,16 @@ Section NumRe.
     | _ => None
     end.
 
-  (* re.match(r"[eE][-+]?\d+", Exponent) is not None *)
-  Definition exp_ok (e : str) : bool :=
+  (* re.match(r"[E][-+]?\d+", Exponent) is not None, E = eE (decimal floats) or pP (hexadecimal floats) *)
+  Definition exp_ok_in (E : str) (e : str) : bool :=
     match e with
     | c :: r =>
-        in_set [101; 69]%N c &&
+        in_set E c &&
         match r with
         | sg :: r' => if in_set [45; 43]%N sg then match r' with d :: _ => isd d | [] => false end else isd sg
         | [] => false
         end
     | [] => false
     end.
+  Definition exp_ok (e : str) : bool := exp_ok_in [101; 69]%N e.
 End NumRe.
